@@ -9,6 +9,7 @@
 
 #include <algorithm>
 #include <cerrno>
+#include <cmath>
 #include <functional>
 #include <map>
 #include <set>
@@ -130,6 +131,10 @@ public:
 	model::Model alt_model;
 	size_t step_model_events = 0;
 	bool step_has_alt_flag = false;
+	bool race_alt = false; // the step races a timer expiry against another event: either processing order is acceptable
+	size_t timer_log_seen = 0;
+	uint64_t first_seq_of_step = 1;
+	std::vector<uint64_t> concluded_in_step;
 	std::map<std::pair<int, std::string>, Replica> replicas; // (conn, dump(fetch id))
 	std::map<std::pair<int, std::string>, std::string> unfetch_reqs; // (conn, request id) -> fetch key
 	std::map<std::pair<int, std::string>, int> open_keys; // fetch requests sent minus unfetch responses seen
@@ -595,12 +600,20 @@ public:
 			for (size_t i = 0; i < ready.size(); i++) if (ready[i] == fd) return (long)i * 1000 + sub;
 			return 999999;
 		};
-		std::stable_sort(evs.begin(), evs.end(), [&](const ModelEvent &a, const ModelEvent &b) {
-			long ra = rank(a), rb = rank(b);
-			if (a.k == ModelEvent::ADVANCE || b.k == ModelEvent::ADVANCE) return a.seq < b.seq;
-			if (ra != rb) return ra < rb;
-			return a.seq < b.seq;
-		});
+		{
+			// clock advances first (primary order of a race step; the alternative puts them last), the rest in event order
+			std::vector<ModelEvent> adv, rest;
+			for (auto &e : evs) {
+				if (e.k != ModelEvent::ADVANCE) { rest.push_back(e); continue; }
+				if (adv.empty()) adv.push_back(e); else adv[0].ns += e.ns; // several clock moves in one step are one: all their expiries share a batch
+			}
+			std::stable_sort(rest.begin(), rest.end(), [&](const ModelEvent &a, const ModelEvent &b) {
+				long ra = rank(a), rb = rank(b);
+				if (ra != rb) return ra < rb;
+				return a.seq < b.seq;
+			});
+			evs = adv; evs.insert(evs.end(), rest.begin(), rest.end());
+		}
 		// a hang-up or reset is reported as an error event: the daemon releases the connection without
 		// reading what arrived together with it (the kernel discards it on reset anyway)
 		{
@@ -612,12 +625,36 @@ public:
 		}
 		exp = model::StepExp(); have_alt = false; step_has_alt_flag = false;
 		step_model_events = 0;
+		first_seq_of_step = m.next_seq; concluded_in_step.clear();
 		model::Model before;
 		bool single = false;
 		{
 			size_t n = 0; for (auto &e : evs) if (e.k == ModelEvent::MESSAGE || e.k == ModelEvent::INVALID) n++;
 			single = n == 1 && evs.size() == 1;
 			if (single) before = m;
+		}
+		race_alt = false;
+		{
+			size_t adv = 0, others = 0;
+			for (auto &e : evs) { if (e.k == ModelEvent::ADVANCE) adv++; else if (e.k != ModelEvent::CONNECTED) others++; }
+			if (opt.allow_timer_join && adv >= 1 && others >= 1) {
+				// alternative order: expiries processed after everything else (primary: in op order)
+				race_alt = true; alt_model = m; alt_exp = model::StepExp();
+				std::vector<ModelEvent> reordered;
+				for (auto &e : evs) if (e.k != ModelEvent::ADVANCE) reordered.push_back(e);
+				for (auto &e : evs) if (e.k == ModelEvent::ADVANCE) reordered.push_back(e);
+				for (auto &e : evs) if (e.k == ModelEvent::ADVANCE) alt_model.clock(e.ns); // the clock has moved before anything is processed
+				for (auto &e : reordered) {
+					switch (e.k) {
+					case ModelEvent::MESSAGE: alt_model.on_message(e.conn, e.msg, alt_exp); break;
+					case ModelEvent::INVALID: if (alt_model.peer(e.conn).alive) alt_model.drop(e.conn, alt_exp); break;
+					case ModelEvent::ENDED: alt_model.drop(e.conn, alt_exp); break;
+					case ModelEvent::ADVANCE: alt_model.expire(alt_exp); break;
+					default: break;
+					}
+				}
+				vd.labels.insert("timer-race-step");
+			}
 		}
 		for (auto &e : evs) {
 			switch (e.k) {
@@ -822,6 +859,11 @@ public:
 			std::string rule, detail;
 			model::StepExp x = exp;
 			bool use_alt = false;
+			if (race_alt) {
+				std::string r2, d2;
+				have_alt = false;
+				if (!match_step(x, r2, d2, m, false) && match_step(alt_exp, r2, d2, alt_model, false)) { m = alt_model; x = alt_exp; exp = alt_exp; vd.stat["race_took_alt_order"]++; }
+			}
 			if (have_alt && alt_conn >= 0) {
 				// which branch did the daemon take? an error response to the single request of this step = refusal
 				auto it = alt_exp.by_conn.find(alt_conn);
@@ -846,6 +888,27 @@ public:
 			}
 			check_connection_liveness();
 		}
+		if (opt.timer_duration_check) {
+			// every duration armed in this step must be the deadline the model computed for a request routed in this step
+			std::vector<uint64_t> armed, want;
+			auto &tl = simk::K().timer_log;
+			for (; timer_log_seen < tl.size(); timer_log_seen++) if (tl[timer_log_seen].value_ns != 0) armed.push_back(tl[timer_log_seen].value_ns);
+			for (auto &r : m.inflight) if (r.seq >= first_seq_of_step) want.push_back(r.tns);
+			for (auto &r : concluded_in_step) want.push_back(r);
+			std::sort(armed.begin(), armed.end()); std::sort(want.begin(), want.end());
+			bool ok = armed.size() >= want.size();
+			// requests routed and concluded within the same step are not in m.inflight any more; only check those still known
+			for (uint64_t w : want) {
+				bool f = false;
+				for (auto &a : armed) { double rel = w ? std::fabs((double)a - (double)w) / (double)w : (a == w ? 0 : 1); if (rel <= 1e-9) { f = true; a = UINT64_MAX; break; } }
+				if (!f) ok = false;
+			}
+			if (!ok && !vd.failed()) {
+				std::string sa, sw; for (auto a : armed) sa += std::to_string(a) + " "; for (auto w : want) sw += std::to_string(w) + " ";
+				vd.add("C14/armed-duration", "step " + std::to_string(step_no) + ": timer armed with [" + sa + "] ns, model deadlines [" + sw + "] ns");
+			}
+			if (!want.empty()) vd.stat["durations_checked"] += (long)want.size();
+		}
 		for (auto &c : cc) { c.checked = c.msgs.size(); c.ended_this_step = false; }
 		if (opt.replica_check && opt.model_check && !vd.failed()) replica_compare();
 		if (opt.hygiene_check) for (auto &h : simk::K().hygiene) vd.add("C07/hygiene", h);
@@ -869,6 +932,16 @@ public:
 		};
 		bool first_is_solo = solo(sc.ops[next_op]);
 		while (!first_is_solo && j < sc.ops.size() && sc.ops[j].join && !solo(sc.ops[j])) j++;
+		// a step that races the clock against something else holds exactly two operations and exactly one expiry
+		// becomes due in it (both processing orders are then judged); otherwise the clock moves in a step of its own
+		for (size_t i = next_op; i < j; i++) if (sc.ops[i].kind == ADVANCE && j - next_op > 1) {
+			uint64_t ns = pick(advance_table(), sc.ops[i].a);
+			size_t due = 0; for (auto &r : m.inflight) if (r.deadline <= m.now_ns + ns) due++;
+			if (due != 1) { j = (i == next_op) ? next_op + 1 : i; break; }
+			if (j - next_op > 2) { j = next_op + 2; if (i >= j) j = i; }
+			break;
+		}
+		for (size_t i = next_op; i < j; i++) if (sc.ops[i].kind == BATCH && j - next_op > 1) { bool hasadv = false; for (size_t q = next_op; q < j; q++) if (sc.ops[q].kind == ADVANCE) hasadv = true; if (hasadv) { j = next_op + 1; break; } }
 		std::vector<ModelEvent> evs;
 		for (size_t i = next_op; i < j; i++) {
 			const Op &op = sc.ops[i];
